@@ -1,0 +1,54 @@
+//go:build verif
+
+// Contracts for capability.go (C10): lock discipline of the client reference operations.  PARTIAL,
+// lock typestate only: every Lock is of a mutex this call does not hold, every Unlock of one it
+// holds, and on every return every mutex is as on entry - so none of these operations can leave a
+// client or hook mutex held or deadlock on itself.
+package capnp
+
+//@ func Client.AddRef -> r
+//@   props C10
+//@   locktypestate
+//@   partial lock
+//@   requires nolocks()
+
+//@ func Client.Release
+//@   props C10
+//@   locktypestate
+//@   partial lock
+//@   requires nolocks()
+
+//@ func Client.peek -> hook, released, resolved
+//@   props C10
+//@   locktypestate
+//@   partial lock
+//@   requires nolocks()
+
+//@ func Client.startCall -> hook, resolved, released, finish
+//@   props C10
+//@   locktypestate
+//@   partial lock
+//@   requires nolocks()
+
+//@ func ClientPromise.Fulfill
+//@   props C10
+//@   locktypestate
+//@   partial lock
+//@   requires cp != nil && nolocks()
+
+//@ func WeakClient.AddRef -> c, ok
+//@   props C10
+//@   locktypestate
+//@   partial lock
+//@   requires wc != nil && nolocks()
+
+// resolveHook is entered with h.mu held and returns with the mutex of the hook it returns held
+// instead (none when it returns nil)
+//@ func resolveHook -> r
+//@   props C10
+//@   locktypestate
+//@   partial lock post
+//@   requires h != nil && onlyheld(&h.mu)
+//@   ensures swapped: (r == nil && nolocks()) || (r != nil && onlyheld(&r.mu))
+//@   loop 0 "for"
+//@     invariant h != nil && onlyheld(&h.mu)
